@@ -223,6 +223,13 @@ def split_model(line):
     return line[:i], [t for t in line[i + 2:].split(",") if t]
 
 
+def _visible(t):
+    """escape invisible / look-alike characters (BOM, NBSP, other Unicode spaces, controls)"""
+    import unicodedata
+    return "".join(c if c == " " or unicodedata.category(c) not in ("Cf", "Zs", "Zl", "Zp", "Cc", "Co", "Cn")
+                   else "\\u%04x" % ord(c) for c in t)
+
+
 def readable(req):
     """decode x<hex> args for humans"""
     def dec(tok):
@@ -235,7 +242,7 @@ def readable(req):
     parts = req.split("\t")
     out = [parts[0]]
     for a in parts[1:]:
-        out.append(re.sub(r"x[0-9a-f]*", lambda m: json.dumps(dec(m.group(0)), ensure_ascii=False), a) if a else '""')
+        out.append(re.sub(r"x[0-9a-f]*", lambda m: _visible(json.dumps(dec(m.group(0)), ensure_ascii=False)), a) if a else '""')
     return " ".join(out)
 
 
